@@ -223,6 +223,29 @@ Theorem C01_back_to_back : forall hist s0 n verb1 verb2,
 Proof. exact gen_back_to_back. Qed.
 Print Assumptions C01_back_to_back.
 
+(* a transfer command refused before its worker runs (550 / 503 / 425) consumes the offset all the
+   same: no stale offset reaches the next transfer *)
+Theorem C01_refused_transfer_consumes_offset : forall hist s0 n verb1 mid verb2,
+  transfer_verb verb1 -> Forall not_rest mid -> transfer_verb verb2 ->
+  offset_after verb_table offset_handed reset_exempt
+               (hist ++ [CRest n; CVerb verb1] ++ mid ++ [CVerb verb2]) s0 = mkO 0 0.
+Proof. exact gen_refused_transfer_consumes_offset. Qed.
+Print Assumptions C01_refused_transfer_consumes_offset.
+
+(* ---- stat / listing after the completion reply, whoever looked before ----
+   `script` is stor_worker's statement sequence with SObserve steps (some session stats or lists the
+   path and is told observed_size) inserted ANYWHERE: before the open, between writes, after the reply *)
+Theorem C01_size_visible_after_226_whoever_looked : forall verb vm m off old block payload segs oracle flushes script,
+  verb_mode Gen.Xfer.facts verb = Some vm ->
+  1 <= block -> concat segs = payload ->
+  select_mode stor_modes vm (negb (off =? 0)) = Some m ->
+  strip_observe script
+  = stor_script stor_reply_after_ctx stor_ctx m off (iter_blocks (sock_trace block oracle segs)) flushes ->
+  v_at_reply (v_run old script) = Some (spec_store vm off payload old, false)
+  /\ observed_size (v_run old script) = length (spec_store vm off payload old).
+Proof. exact gen_visible_after_226_observed. Qed.
+Print Assumptions C01_size_visible_after_226_whoever_looked.
+
 (* ---- a missing file ---- *)
 (* REST n (n > 0) + STOR/APPE on a missing path: 451, nothing created, no 226 (inner None);
    without an offset the file is created and holds exactly the payload *)
